@@ -7,6 +7,7 @@ from concurrent.futures import ThreadPoolExecutor
 
 import common
 from props import c03
+from props import c05local as cl
 from props import c05proj as cp
 
 RULE = ("Project stages: generated projects (target + 0-2 followed local modules, plain / from / aliased imports, chains; "
@@ -20,7 +21,15 @@ RULE = ("Project stages: generated projects (target + 0-2 followed local modules
         "transplanted into a followed import with every function wrapped by two targets A and B, and free-mode projects "
         "(diamonds, shared parameter names, compound arguments): the histories A,A (as main() and as a library) / A,B,A / B,A,B in "
         "ONE fresh interpreter, no cache cleared; every step must equal the same analysis done first in a fresh interpreter. "
-        "A sample of projects through the real CLI under several PYTHONHASHSEED values. non-trivial also = distinct project")
+        "A sample of projects through the real CLI under several PYTHONHASHSEED values. non-trivial also = distinct project. "
+        "Local-name stage (c05local.py): every way Python binds a name in a function (parameters of every kind of the function / "
+        "a lambda / a nested def / an initialiser / a static method / a module-level lambda, comprehension, for, with, except, "
+        "walrus, assignment, match-capture targets, nested def / class) x what is done through the bound name (bare / keyword / "
+        "dotted call) x an UNRELATED module-level definition of the same name (function, async function, class, class with a "
+        "static method, lambda, variable, stdlib import, import of a followed module or of its function) added before / between / "
+        "after, in the target, in the followed import the function lives in, in the target of such an import, arriving through "
+        "`from lib import *`: CPython's symtable must say the name is not a global of the function, and the function's results "
+        "must not change; single-file cases through the real main() AND the Lean whole-pipeline model, a sample through the CLI")
 
 
 def _diff_names(base_doc, doc, compared):
@@ -198,6 +207,124 @@ def hashseed_stage(res, rng, n, seeds, tp):
                                    "case": {"project": label, "files": files, "outputs": sorted(distinct)[:3]}})
 
 
+def local_name_stage(res, rng, quick, model, tp, hashseed):
+    """unrelated definitions named like a name the function binds locally (props/c05local.py)."""
+    rows = cl.quick_rows(rng) if quick else cl.full_rows(rng)
+    # ---------------- single files: real main (-f 0) + the whole-pipeline model
+    cases, srcs, index = [], [], {}
+
+    def src_id(src):
+        if src not in index:
+            index[src] = len(srcs)
+            srcs.append(src)
+        return index[src]
+
+    for form, use, kind, name, place in rows:
+        base, var = cl.single_file_case(form, use, kind, name, place)
+        ex = cl.extra_statements_of(form, "host")
+        cls = cl.binder_class(var, "host", name, ex)
+        res.evaluations += 1
+        if cl.python_says_global(var, "host", name, ex) or not cls:
+            res.internal_errors.append({"what": "local-name generator: CPython resolves the name to the module (or nothing binds it)",
+                                        "form": form, "source": var})
+            continue
+        cases.append({"form": form, "use": use, "kind": kind, "name": name, "place": place, "cls": cls,
+                      "b": src_id(base), "v": src_id(var)})
+    outs = cp.pipeline_batch(model, srcs)
+    reported = set()
+    for o, src in zip(outs, srcs):
+        if "im" in o and o.get("diff"):
+            res.disagreements.append({"case": {"stage": "local-name:single-file", "files": {"target.py": src}}, "diff": o["diff"][:2000]})
+    for c in cases:
+        ob, ov = outs[c["b"]], outs[c["v"]]
+        label = f"{c['cls']}|{c['use']}|{c['kind']}"
+        if "im" not in ob or "im" not in ov or "mo" not in ob or "mo" not in ov:
+            res.skipped_outside_fragment += 1
+            res.count("local-name:single:skipped:" + (ob.get("skipped") or ov.get("skipped") or "?")[:40])
+            continue
+        res.count("local-name:binder:" + c["cls"])
+        res.count("local-name:unrelated:" + c["kind"])
+        res.count("local-name:use:" + c["use"])
+        res.nontrivial.add(common.digest(srcs[c["v"]]))
+        judge_local(res, "single-file", c, ob["im"], ov["im"], {"target.py": srcs[c["b"]]}, {"target.py": srcs[c["v"]]},
+                    ["host", "control"], pinned=not (ob.get("diff") or ov.get("diff")))
+    # ---------------- projects: real main with imports followed + the result-generation model over all files
+    batch, bmeta = [], []
+    prows = cl.project_rows(rng, 6 if quick else 80)
+    for c in prows:
+        src = c["files"][c["host_file"]] if c["host_file"] in c["files"] else c["base_files"][c["host_file"]]
+        ex = cl.extra_statements_of(c["form"], "host")
+        c["cls"] = cl.binder_class(src, "host", c["name"], ex)
+        res.evaluations += 2
+        # CPython's verdict is taken on the file of the host WITH the definition visible in it (for the star layout:
+        # the definition pasted into the target, which is what `from liba import *` amounts to)
+        probe = src if c["layout"] != "unrelated-arrives-by-star-import" else cl.unrelated_source(c["kind"], c["name"]) + "\n" + src.replace("from liba import *", "")
+        if cl.python_says_global(probe, "host", c["name"], ex) or not c["cls"]:
+            res.internal_errors.append({"what": "local-name generator: CPython resolves the name to the module (or nothing binds it)",
+                                        "layout": c["layout"], "source": probe})
+            continue
+        d = tp.new(c["base_files"])
+        b = cp.run_main(d, capture=True)
+        cp.write_files(d, c["files"])
+        v = cp.run_main(d, capture=True)
+        c["dir"] = d
+        res.count("local-name:layout:" + c["layout"])
+        res.nontrivial.add(common.digest(c["files"]))
+        queue_model(batch, bmeta, b, {"stage": "local-name:project", "variant": "base", "files": c["base_files"]}, res)
+        queue_model(batch, bmeta, v, {"stage": "local-name:project", "variant": c["layout"], "files": c["files"]}, res)
+        judge_local(res, c["layout"], c, b, v, c["base_files"], c["files"], c["compared"], pinned=True)
+    for (case, snap, rnd), mo in zip(bmeta, model.batch(batch)):
+        d = cp.compare_round(snap, rnd, mo)
+        if d is not None:
+            res.disagreements.append({"case": case, **d})
+    # ---------------- the same through the real command line (a sample; parameters first: they are never excused)
+    sample = [c for c in cases if cl.is_parameter_class(c["cls"]) and c["use"] != "dotted-call"]
+    rng.shuffle(sample)
+    sample = sample[: (8 if quick else 60)]
+    jobs = []
+    for c in sample:
+        for which in ("b", "v"):
+            jobs.append((c, which, tp.new({"target.py": srcs[c[which]]})))
+    with ThreadPoolExecutor(max_workers=16) as ex:
+        clis = list(ex.map(lambda j: cp.cli_run(j[2], hashseed=hashseed, follow=0), jobs))
+    for (c, which, d), cli in zip(jobs, clis):
+        c["cli_" + which] = cli
+    for c in sample:
+        res.evaluations += 2
+        judge_local(res, "single-file:command-line", c, c["cli_b"], c["cli_v"], {"target.py": srcs[c["b"]]},
+                    {"target.py": srcs[c["v"]]}, ["host", "control"], pinned=True)
+        ip = outs[c["v"]].get("im")
+        if ip is not None and (ip["outcome"] == "ok") == (c["cli_v"]["outcome"] == "ok") and ip["outcome"] == "ok" \
+                and ip["doc"] != c["cli_v"]["doc"]:
+            res.internal_errors.append({"what": "in-process main() and the CLI disagree", "files": {"target.py": srcs[c["v"]]},
+                                        "cli": c["cli_v"], "in_process": ip["doc"]})
+
+
+def judge_local(res, where, c, b, v, files, vfiles, compared, pinned):
+    case = {"stage": "local-name:" + where, "variant": f"unrelated:{c['kind']}:{c['place']}", "base_files": files, "files": vfiles,
+            "binder": c["cls"], "use": c["use"], "name": c["name"], "form": c["form"]}
+    bo, vo = b["outcome"], v["outcome"]
+    if bo != vo or bo != "ok":
+        if bo != vo:
+            res.count("local-name:outcome-differs")
+            res.violations.append({"signature": cl.signature(c["cls"], c["use"], c["kind"], pinned) + ":outcome", "case": case,
+                                   "outcomes": [bo, vo]})
+        else:
+            res.count("local-name:not-analysed:" + str(bo)[:30])
+        return
+    diff = [x for x in compared if x in b["doc"] and v["doc"].get(x) != b["doc"].get(x)]
+    missing = [x for x in compared if x not in b["doc"]]
+    if missing:
+        res.internal_errors.append({"what": "local-name stage: compared function not in the base document", "missing": missing, "case": case})
+        return
+    if not diff:
+        res.count("local-name:same")
+        return
+    res.count("local-name:differs:" + ("parameter" if cl.is_parameter_class(c["cls"]) else c["cls"]))
+    res.violations.append({"signature": cl.signature(c["cls"], c["use"], c["kind"], pinned), "case": case, "functions": diff,
+                           "base": {n: b["doc"].get(n) for n in diff}, "variant": {n: v["doc"].get(n, "<not reported at all>") for n in diff}})
+
+
 def run_all(res, tier, seed, model):
     quick = tier == "quick"
     tp = cp.TempProjects()
@@ -205,5 +332,6 @@ def run_all(res, tier, seed, model):
         project_stage(res, random.Random(seed * 7919 + 11), 10 if quick else 60, 22 if quick else 150, model, tp)
         history_stage(res, random.Random(seed * 7919 + 12), 6 if quick else 40, 6 if quick else 40, tp, hashseed=seed % 5)
         hashseed_stage(res, random.Random(seed * 7919 + 13), 5 if quick else 30, [0, 1, 2] if quick else list(range(8)), tp)
+        local_name_stage(res, random.Random(seed * 7919 + 14), quick, model, tp, hashseed=seed % 5)
     finally:
         tp.close()
